@@ -27,6 +27,34 @@ CLAIMED = {
         "the theorem exhibits the collision", ref="6 C15"),
 }
 
+SEQ_NOTE = ("trusted: extraction + fjm driver, fjv harness, generators and canonicaliser; the oracle is the extracted model with "
+            "every defect switch off (ideal), tied to Spec maps by the Coq theorems as they are completed; lsm-tree below Lsm.v modelled")
+def seq(prop, what, ref):
+    return dict(cat="translation_validation", tech="executable Coq model (extracted) vs implementation on generated programs; oracle = repaired model",
+                text=what, note=SEQ_NOTE, ref=ref)
+CLAIMED.update({
+ "C01": seq("C01", "Every generated program (inserts, removes, batches, clears, ingestion, every read/scan form, rotate/flush/compaction/major "
+            "placed at random) is executed by the implementation and by the extracted Coq model (Lsm.v/Db.v/Prog.v); every operation's "
+            "result must be identical, and equal to the repaired-model oracle. Theorems about the model are being added (level will be "
+            "raised to proof when C01's refinement theorems are closed).", "6 C01"),
+ "C04": seq("C04", "Histories with repeated reopen, ingestion over existing keys, clear, flush/compaction: dump before close and after reopen, "
+            "point reads vs scans, compared between implementation, model recovery (Db.v recover) and oracle.", "6 C04"),
+ "C05": seq("C05", "Programs with several live views (snapshots, transaction read views, lazily consumed iterators, instant-0 snapshots, same-instant "
+            "views closed in any order) interleaved with writes and every maintenance step incl. gc/pullup; every view re-read later; implementation "
+            "vs Tracker.v/Lsm.v version-history model vs oracle.", "6 C05"),
+ "C07": seq("C07", "Optimistic transaction histories (all read and write methods, helpers, all begin/commit/rollback orders, gc steps): each read and each "
+            "commit verdict compared between implementation, the model of conflict_manager/oracle (Db.v has_conflict, Prog.v tx_commit) and oracle; "
+            "independently a brute-force checker searches a real-time-consistent serial order explaining the implementation's committed reads.", "6 C07"),
+ "C08": seq("C08", "In-transaction programs on both transactional databases with all endings, compared with the overlay model (Prog.v tx_*); multi-threaded "
+            "read-modify-write counters on the single-writer database.", "6 C08"),
+ "C11": seq("C11", "Histories ending in reopen + overwrite/remove of recovered keys + reads through point reads, scans and a fresh snapshot, compared with the "
+            "model; plus the direct clause: seqno()/visible_seqno() right after reopen exceed every seqno in any tree (hook) and any journal record.", "6 C11"),
+ "C12": seq("C12", "Create/write/delete/re-create histories over three names with old handles, dropped handles and reopen anywhere: names, exists, dumps of "
+            "all keyspaces compared between implementation, registry model (Db.v do_ks/do_delks/recover) and oracle.", "6 C12"),
+ "C18": seq("C18", "Keyspaces with and without name-assigned filters (keep/remove/replace by first key byte) under random maintenance and reopen, compared with "
+            "the model's compaction stream (Lsm.v gc_key/apply_filter).", "6 C18"),
+})
+
 m = {"version": 1, "setup_cmd": "./setup.sh",
      "hooks": {"guard": "cargo feature fjall_verif",
                "enable": "harness/Cargo.toml depends on fjall = { path = \"/repo\", features = [\"fjall_verif\"] }",
